@@ -592,8 +592,9 @@ def finish(mod, prop_id, tier, seed, results, wall, xhair=None):
     if ev["coverage"]["transitions"] < 1:
         ev["coverage"]["transitions"] = max(1, int(agg.get("branches", 0)))
     os.makedirs(os.path.join(ROOT, "evidence"), exist_ok=True)
-    with open(os.path.join(ROOT, "evidence", f"{prop_id}.json"), "w") as f:
-        json.dump(ev, f, indent=1, default=str)
+    for name in (f"{prop_id}.json", f"{prop_id}.{tier}.json"):     # the latest run, and the latest run of this tier
+        with open(os.path.join(ROOT, "evidence", name), "w") as f:
+            json.dump(ev, f, indent=1, default=str)
     if os.environ.get("VERIF_SLOWEST"):
         for r in sorted(results, key=lambda r: -r["wall"])[:5]:
             print("SLOW", round(r["wall"], 1), (r["stats"] or {}).get("paths"), json.dumps(r["sp"], default=str)[:200])
